@@ -619,11 +619,11 @@ def units_C05(tier, seed):
 
 # ------------------------------------------------------------------------------------------------ C06 / C07 / C08
 IO_STACKS = [0, 1, 2, 3, 4, 5, 6, 7, 8, 9, 10, 11, 12]
-IO_LAYERS = [20, 21, 22, 23, 24, 25, 26, 27]
+IO_LAYERS = [20, 21, 22, 23, 24, 25, 26, 27, 28, 29]
 IO_DESC = ('catalogue: array<float3>, array<double1>, constant (2), identity, strided<size3,array<float3>>, '
            'affine<linear<strided<size2,array<float2>>>>, clamp<morton<size2,array<double2>>>, '
            'backup<shuffle<strided<size2,array<float1>>>>, hilbert<size2,array<float1>>, covariant_cast<double,strided<...>>, '
-           'dereference<strided<...>>, nearest_neighbour<strided<...>>; per-layer stacks clamp/backup/affine/shuffle/cast/linear/nearest '
+           'dereference<strided<...>>, nearest_neighbour<strided<...>>; per-layer stacks clamp (int, float and double boxes)/backup/affine/shuffle/cast/linear/nearest '
            'over a token-emitting probe backend')
 INFO['C06'] = {
     'bounds': IO_DESC + '; every configuration value and stored scalar a symbolic bit pattern (NaN payloads, signed zeros, subnormals, '
